@@ -281,12 +281,12 @@ check(
 
 check(
     "C11", "exploration",
-    "2-4 processes run generated call / reduce_size / clear workloads on one cache directory under a turn-based scheduler: an "
+    "2-4 processes (or threads of one process) run generated call / reduce_size / clear workloads on one cache directory under a turn-based scheduler: an "
     "LD_PRELOAD interposer makes every libc file-system call under the directory (reads and mutations) wait for a grant, so "
     "exactly one participant runs between two grants and the interleaving is the drawn schedule (run-to-completion plus up "
     "to 3/6 pre-emptions, CHESS style).  Oracle: every cached call returns its function's value and raises nothing; the files "
     "left behind are whole and hold values the workload computes.",
-    "Bounded pre-emptions, sampled (not exhaustive) interleavings; participants are processes (threads are not scheduled); "
+    "Bounded pre-emptions, sampled (not exhaustive) interleavings; participants are processes or threads of one process; "
     "a single libc call is atomic; NFS semantics not modelled; wrappers are created before the scheduled section.",
     "Hypothesis generated schedules (turn-based libc-call scheduler with bounded pre-emptions) over generated workloads; value/no-exception oracle",
     "DESIGN.md sections 3 (E3) and 4 C11", engine="E3 fsgate",
